@@ -12,7 +12,7 @@ Section User.
 Context {U : UserFn}.
 
 Lemma sparse_length : forall ids e, List.length (sparse ids e) = List.length ids.
-Proof. intros. unfold sparse. rewrite map_length, combine_length, seq_length. lia. Qed.
+Proof. intros. unfold sparse. rewrite map_length, combine_length, seq_length. apply Nat.min_id. Qed.
 
 Lemma nth_error_sparse : forall ids e k,
   nth_error (sparse ids e) k =
